@@ -361,6 +361,31 @@ def c18(rep, rnd, thorough):
                     rep.sample({"upstream_script": scr["name"], "downstream_header": head[:60].decode("latin1"), "body_bytes": len(body), "virtual_s": round(el, 2)})
             finally:
                 net.close()
+        # the location's timeout, not some other timer, bounds a stalling upstream: also when it exceeds the server's own
+        # 30 s request timeout, and per location when two locations share an upstream
+        stall = by_name["stall-mid-body"]
+        for lt in (3.0, 45.0):
+            net = Net(stall)
+            try:
+                wire, el, tr = through_server(net, make_handler("gemini://backend.ex:1966", "/", False, timeout=lt), "/", "gemini://front.ex/p")
+                n += 1
+                if not wire.startswith(b"43") or abs(el - lt) > 0.01:
+                    rep.violation({"formula": "WithinLocationTimeout", "timeout": lt},
+                                  "location timeout %.0fs, stalling upstream: downstream got %r after %.1fs (expected 43 at %.0fs)" % (lt, wire[:40], el, lt), None)
+            finally:
+                net.close()
+        net = Net(stall)
+        try:
+            ha = make_handler("gemini://backend.ex:1966", "/a/", False, timeout=9.0)
+            hb = make_handler("gemini://backend.ex:1966", "/b/", False, timeout=2.0)
+            for h_, pre, lt in ((hb, "/b/", 2.0), (ha, "/a/", 9.0)):
+                wire, el, tr = through_server(net, h_, pre, "gemini://front.ex" + pre + "x")
+                n += 1
+                if not wire.startswith(b"43") or abs(el - lt) > 0.01:
+                    rep.violation({"formula": "WithinLocationTimeout", "timeout": lt, "shared_upstream": True},
+                                  "two locations share an upstream; the one with timeout %.0fs answered %r after %.1fs" % (lt, wire[:40], el), None)
+        finally:
+            net.close()
         rep.add("relay_scripts_replayed", n)
         rep.add("traces_validated_against_impl", n)
         # random segmentation of the upstream stream must not matter
